@@ -478,6 +478,7 @@ func cmdCheck(args []string) {
 		fmt.Println(l)
 	}
 	if violations > 0 {
+		solv.Close() // os.Exit skips the deferred clean-up of the solver scratch directory
 		os.Exit(1)
 	}
 }
